@@ -28,6 +28,11 @@ class Vfs:
         self.written: dict[str, bytes] = {}
         self.clock = 1_700_000_000  # logical modification clock: every write ticks it
         self.mtimes: dict[str, int] = {}
+        # descriptors: a file object holds one from open() until close() or until the object is freed; a process has only
+        # so many (RLIMIT_NOFILE) - None = unlimited
+        self.open_files = 0
+        self.max_open_files = None
+        self.peak_open_files = 0
 
     # ---- construction --------------------------------------------------------------------
     def mkdir(self, path: str) -> None:
@@ -260,9 +265,12 @@ class Vfs:
             if node[0] == "d":
                 raise IsADirectoryError(errno.EISDIR, os.strerror(errno.EISDIR), p)
             data = node[1]
+            if self.max_open_files is not None and self.open_files >= self.max_open_files:
+                self.counts["emfile"] = self.counts.get("emfile", 0) + 1
+                raise OSError(errno.EMFILE, os.strerror(errno.EMFILE), p)
             if "b" in mode:
-                return io.BytesIO(data)
-            return io.StringIO(data.decode(encoding))
+                return _VfsBytesReader(self, data)
+            return _VfsTextReader(self, data.decode(encoding))
         if "w" in mode or "a" in mode or "x" in mode:
             parent, pex = self._resolve(posixpath.dirname(r))
             if not pex or self.nodes.get(parent, ("x",))[0] != "d":
@@ -296,6 +304,47 @@ class Vfs:
             mod.lexists = lambda p: self._resolve(self._abs(p), follow_last=False)[1]
         os.stat, os.lstat, os.listdir = self.stat, self.lstat, self.listdir
         return self
+
+
+class _Counted:
+    """Descriptor accounting of a read handle: taken at open, given back at close() or when the object is freed."""
+
+    def _take(self, vfs):
+        self._vfs = vfs
+        self._holds = True
+        vfs.open_files += 1
+        vfs.peak_open_files = max(vfs.peak_open_files, vfs.open_files)
+
+    def _give_back(self):
+        if getattr(self, "_holds", False):
+            self._holds = False
+            self._vfs.open_files -= 1
+
+
+class _VfsTextReader(io.StringIO, _Counted):
+    def __init__(self, vfs, text):
+        io.StringIO.__init__(self, text)
+        self._take(vfs)
+
+    def close(self):
+        self._give_back()
+        io.StringIO.close(self)
+
+    def __del__(self):
+        self._give_back()
+
+
+class _VfsBytesReader(io.BytesIO, _Counted):
+    def __init__(self, vfs, data):
+        io.BytesIO.__init__(self, data)
+        self._take(vfs)
+
+    def close(self):
+        self._give_back()
+        io.BytesIO.close(self)
+
+    def __del__(self):
+        self._give_back()
 
 
 class _VfsWriter:
